@@ -357,6 +357,21 @@ func (c *VC) ghostBuiltin(st *State, name string, call *ast.CallExpr) []*Term {
 		off, ln := mkField(sv, "sl_off"), mkField(sv, "sl_len")
 		rng := mkAnd(c.cmp(token.LEQ, off, j, it), c.cmp(token.LSS, j, c.binop(token.ADD, off, ln, it), it))
 		return []*Term{mkForall([]*Term{j}, mkImplies(rng, mkEq(mkSelect(rowNow, j), mkSelect(rowOld, j))), mkSelect(rowNow, j))}
+	case "localBool":
+		// localBool("x"): the value of the function's boolean local x in the state the clause is
+		// evaluated in (for postconditions: at the return)
+		if tv, ok := c.cur().view.typeOf(call.Args[0]); ok && tv.Value != nil {
+			name := constant.StringVal(tv.Value)
+			for o, t := range st.env {
+				if o != nil && o.Name() == name && t.Sort == sortBool && o.Pkg() == c.fn.Pkg.Types {
+					if v, ok := o.(*types.Var); ok && !v.IsField() && o.Parent() != nil && o.Parent() != c.fn.Pkg.Types.Scope() {
+						return []*Term{t}
+					}
+				}
+			}
+		}
+		c.unsupportedf(call.Pos(), "localBool: no such boolean local")
+		return []*Term{c.fresh("local", sortBool)}
 	case "arg":
 		// arg[T](i): the i-th argument of the call a callsite assertion is attached to
 		if c.siteCall != nil {
